@@ -15,6 +15,8 @@ HEADER = ('From Coq Require Import List NArith ZArith Bool String Ascii '
 
 IMP_VALUES = ['0', '1', '1', '2', '0.5', '1.0', '0.0', '4', '1e-1', '0.25',
               '8', '0', '16', '3', '1.5']
+ZERO_SPELLINGS = ['0', '0', '0', '0.0', '0.', '.0', '0e0', '-0', '+0.0', '00',
+                  '0.000', '0E+1']
 PARTICLES = ['n', 'p', 'e', 'n,p', 'h', 'n,p,e']
 DENSITIES = ['-1.0', '-2.7', '0.1', '-19.1', '0.0602', '8.5e-2', '-1.205-3',
              '-11.35', '2.5', '-7.8']
@@ -108,7 +110,10 @@ def gen_imp_items(rng, n_cells, zero_bias=0.3, allow_j=False, allow_log=False):
             items.append(('v', float(sp), sp))
             count += n + 1
         else:
-            sp = '0' if rng.random() < zero_bias else rng.choice(IMP_VALUES)
+            if rng.random() < zero_bias:
+                sp = rng.choice(ZERO_SPELLINGS) if items else '0'
+            else:
+                sp = rng.choice(IMP_VALUES)
             items.append(('v', float(sp), sp))
             count += 1
         last = items[-1]
@@ -300,6 +305,10 @@ def render_deck(deck, rng, wrap=True):
         else:
             head = f'{cell["id"]} {cell["mat"]} {cell["geom"]}'
         opts = cell['opts']
+        if cell.get('glue') and opts:
+            # options directly after the closing parenthesis of the geometry
+            lines.append(head + opts)
+            continue
         if wrap and opts and rng.random() < 0.3:
             # continuation line: break at a blank between two option words
             cut = [m.start() for m in re.finditer(' ', opts)]
@@ -486,8 +495,9 @@ def c_pcase(deck, lattice_args, result):
     '''One `pcase` term.'''
     from t4_geom_convert.main import parse_lattice
     transforms = result[3]
-    tables = c_tables(deck_tokens(deck), transforms)
     split = [card_split(name, toks) for name, toks in deck['imp_cards']]
+    tables = c_tables(deck_tokens(deck)
+                      + [t for _, toks in split for t in toks], transforms)
     imps = clist(cpair(cstr(name), clist(cstr(t) for t in toks))
                  for name, toks in split)
     cards = clist(c_card(c) for c in deck['cells'])
